@@ -333,12 +333,12 @@ Qed.
 (* ---- C16_stale_notification_harmless -------------------------------------- *)
 
 Lemma stale_harmless sw s g :
-  stale_close_unfiltered sw = false -> ph s = Configured -> g <> gen s ->
+  stale_close_unfiltered sw = false -> failed_start_shares_session sw = false -> ph s = Configured -> g <> gen s ->
   same_session s (step sw s (ADeliver g)).
 Proof.
-  intros F P N.
+  intros F F2 P N.
   destruct s as [gen0 st0 conn0 ph0 cli0 pend0 closer0 fired0 est0 wait0 last0]. projs. subst.
-  cbn [step ph]. projs. rewrite F. destruct (Nat.eqb_spec g gen0); [contradiction|]. cbn [orb].
+  cbn [step ph]. projs. rewrite F, F2. destruct (Nat.eqb_spec g gen0); [contradiction|]. cbn [orb andb].
   destruct (memn g pend0); unfold same_session; projs; repeat split.
 Qed.
 
@@ -351,10 +351,11 @@ Qed.
 
 (* an established session survives the delivery of every notification under way, in any number *)
 Lemma session_survives sw : forall fuel s,
-  stale_close_unfiltered sw = false -> wf sw s -> ph s = Configured -> cli_open s = true ->
+  stale_close_unfiltered sw = false -> failed_start_shares_session sw = false ->
+  wf sw s -> ph s = Configured -> cli_open s = true ->
   same_session s (drain sw fuel s).
 Proof.
-  induction fuel as [|f IH]; intros s F W P C.
+  induction fuel as [|f IH]; intros s F F2 W P C.
   - cbn. unfold same_session. repeat split.
   - cbn [drain]. rewrite P. destruct (pending s) as [|g r] eqn:E; [unfold same_session; repeat split|].
     assert (g <> gen s) as N.
@@ -362,9 +363,9 @@ Proof.
       rewrite C, E, Nat.eqb_refl in Htok. cbn [andb b2n count_occ_nat] in Htok.
       destruct (Nat.eqb_spec g (gen s)) as [->|]; [|assumption].
       destruct (Nat.leb 1 (gen s) && Nat.leb (gen s) (gen s)); cbn [b2n] in Htok; lia. }
-    pose proof (stale_harmless sw s g F P N) as [A [B [C' [D [E' [F' [G H]]]]]]].
+    pose proof (stale_harmless sw s g F F2 P N) as [A [B [C' [D [E' [F' [G H]]]]]]].
     pose proof (step_wf sw s (ADeliver g) W) as W'.
-    specialize (IH (step sw s (ADeliver g)) F W' ltac:(congruence) ltac:(congruence)).
+    specialize (IH (step sw s (ADeliver g)) F F2 W' ltac:(congruence) ltac:(congruence)).
     destruct IH as [A1 [B1 [C1 [D1 [E1 [F1 [G1 H1]]]]]]].
     unfold same_session. repeat split; congruence.
 Qed.
@@ -433,3 +434,23 @@ Proof.
   exists (healthy_start ++ [AStop; IServeDone] ++ healthy_start), 1.
   split; [eexists; reflexivity|]. vm_compute. repeat split; congruence.
 Qed.
+
+(* the variant: the session number advanced only when an established session is closed.  A Start that
+   fails after its client exists, an immediate healthy Start, then the failed attempt's notification:
+   the new session is closed *)
+Lemma failed_start_notification_refuted :
+  exists l g, reachable shared_session (run shared_session init l) /\
+    let s := run shared_session init l in
+    ph s = Configured /\ started s = true /\ g <> gen s /\ memn g (pending s) = true /\
+    ph (step shared_session s (ADeliver g)) = Closing /\
+    let s' := settle shared_session s in ph s' = Idle /\ started s' = false /\ fired s' = [2; 1].
+Proof.
+  exists (start_actions BRefuse ++ healthy_start), 1.
+  split; [eexists; reflexivity|]. vm_compute. repeat split; congruence.
+Qed.
+
+(* ... while in that variant the notification of a STOPPED session is still filtered *)
+Lemma shared_session_stop_filtered :
+  let s := run shared_session init (healthy_start ++ [AStop; IServeDone] ++ healthy_start) in
+  ph s = Configured /\ memn 1 (pending s) = true /\ ph (settle shared_session s) = Configured.
+Proof. vm_compute. repeat split. Qed.
